@@ -548,6 +548,36 @@ func equal(want, got interface{}) bool {
 	return false
 }
 
+// sameParsed compares two values produced by the parser.
+func sameParsed(a, b interface{}) bool {
+	switch x := a.(type) {
+	case []interface{}:
+		y, ok := b.([]interface{})
+		if !ok || len(x) != len(y) {
+			return false
+		}
+		for i := range x {
+			if !sameParsed(x[i], y[i]) {
+				return false
+			}
+		}
+		return true
+	case map[string]interface{}:
+		y, ok := b.(map[string]interface{})
+		if !ok || len(x) != len(y) {
+			return false
+		}
+		for k, v := range x {
+			w, present := y[k]
+			if !present || !sameParsed(v, w) {
+				return false
+			}
+		}
+		return true
+	}
+	return a == b
+}
+
 func hasFloatErr(v interface{}) bool {
 	switch w := v.(type) {
 	case floatLit:
@@ -707,7 +737,15 @@ func Check(in []byte) {
 	copy(cp, in)
 	f := text.NewFile("f", cp)
 	ctx := parsley.NewContext(parsley.NewFileSet(f), text.NewReader(f))
+	rd := text.NewReader(f)
+	ctx = parsley.NewContext(parsley.NewFileSet(f), rd)
 	v, err := parsley.Evaluate(ctx, combinator.Sentence(text.Trim(json.NewParser())))
+	// evaluating the same file again (fresh context, same reader) gives the same answer
+	v2, err2 := parsley.Evaluate(parsley.NewContext(parsley.NewFileSet(f), rd), combinator.Sentence(text.Trim(json.NewParser())))
+	if (err == nil) != (err2 == nil) || (err != nil && err.Error() != err2.Error()) || (err == nil && !sameParsed(v, v2)) {
+		rt.Fail("second-evaluation-differs", show(in))
+		return
+	}
 	rt.ObsBool("accepted", err == nil)
 	rt.ObsInt("status", st)
 	switch st {
